@@ -10,6 +10,20 @@ use std::panic::{catch_unwind, AssertUnwindSafe};
 
 pub type Files = Vec<(String, String)>;
 
+/// where the input of the case being run is recorded before the library is called: if the process
+/// is killed (abort, stack overflow) or does not return (hang), the check finds the input here
+pub static CURRENT: std::sync::Mutex<Option<String>> = std::sync::Mutex::new(None);
+
+pub fn mark_current(op: &str, input: Vec<(&'static str, Json)>) {
+    if let Ok(g) = CURRENT.lock() {
+        if let Some(p) = g.as_ref() {
+            let mut v = vec![("op", Json::s(op))];
+            v.extend(input);
+            let _ = std::fs::write(p, Json::obj(v).to_string());
+        }
+    }
+}
+
 pub fn files_json(files: &Files) -> Json {
     Json::Arr(
         files
@@ -38,6 +52,7 @@ pub fn impl_validate(files: &Files) -> Json {
 /// ids, validated once) before it was brought to `files` by replacing / removing / adding: what it
 /// reports must depend on its current contents only
 pub fn impl_validate_after(files: &Files, prev: Option<&Files>) -> Json {
+    mark_current("validate", vec![("files", files_json(files)), ("prev", prev.map(files_json).unwrap_or(Json::Null))]);
     let r = catch_unwind(AssertUnwindSafe(|| {
         let mut p: Parser<String> = Parser::new();
         if let Some(prev) = prev {
@@ -82,6 +97,7 @@ pub fn impl_validate_after(files: &Files, prev: Option<&Files>) -> Json {
 
 /// validate the project, then report what the traversal / symbol API says about every file
 pub fn impl_walk(files: &Files, with_positions: bool) -> Json {
+    mark_current("walk", vec![("files", files_json(files))]);
     let r = catch_unwind(AssertUnwindSafe(|| {
         let mut p: Parser<String> = Parser::new();
         for (id, text) in files {
@@ -124,6 +140,7 @@ pub fn walk_case(files: &Files, with_positions: bool) -> Vec<(&'static str, Json
 /// C19: every tree (syntax stage and validated) through a RON round trip, plus the log of the
 /// fields the derived `Serialize` actually emits
 pub fn impl_serde(files: &Files) -> Json {
+    mark_current("serde", vec![("files", files_json(files))]);
     let r = catch_unwind(AssertUnwindSafe(|| {
         let mut p: Parser<String> = Parser::new();
         for (id, text) in files {
@@ -219,6 +236,7 @@ pub fn spans_json(rd: &doc::Rendered, laid: &doc::Laid) -> Json {
 
 /// the syntax stage alone: what `add_content` stores for each text
 pub fn parse_case(files: &Files, extra: Vec<(&'static str, Json)>) -> Vec<(&'static str, Json)> {
+    mark_current("parse", vec![("files", files_json(files))]);
     let r = catch_unwind(AssertUnwindSafe(|| {
         let mut p: Parser<String> = Parser::new();
         for (id, text) in files {
